@@ -5,6 +5,7 @@
            foreign and undecodable data, restarts at any point. *)
 From NG Require Import Common.Tactics Sync.Queue Sync.QueueProofs Sync.Restore Sync.RestoreProofs Sync.RestoreExamples.
 From NG Require Sync.Blocks.
+From NG Require Import Sync.Crash Sync.CrashProofs.
 Open Scope N_scope.
 
 (* ---------- part 1: block queue ---------- *)
@@ -175,6 +176,53 @@ Theorem C20_restart_overwrite_refuted :
                 count_of s'' 3 = 1%nat /\ temp_storage twT s'' = [([1; 5], 9)].
 Proof. exact restart_overwrite_refuted. Qed.
 Print Assumptions C20_restart_overwrite_refuted.
+
+(* ---------- crashes (added after the sixth independent mutation round) ---------- *)
+
+(* A crash at any operation boundary keeps the database as flushed there and loses the pool and the stage bit; the restart
+   rebuilds the pool from the database alone; with any further deliveries and restarts the run never fails, the pool empties
+   exactly when every trie node is stored, the stored pairs are then exactly the trie's occurrences, and the pool is exact. *)
+Theorem C20_crash_restart_converges : forall (T : tree) (root : hash) (rank : hash -> nat),
+  (forall h n l c, lookup T h = Some n -> In (l, c) (kids n) -> (rank c < rank h)%nat) ->
+  (forall h n l c, lookup T h = Some n -> In (l, c) (kids n) -> exists nc, lookup T c = Some nc) ->
+  (exists n, lookup T root = Some n) ->
+  forall fuel ops1 ops2 s1,
+  fuel_ok T rank fuel -> Forall (genuine_op T) ops1 -> Forall (genuine_op T) ops2 ->
+  Restore.run true true fuel T root ops1 (Restore.init root) = Some s1 ->
+  exists s1' s, restart true fuel T root (crashed s1) = Some s1' /\ store s1' = store s1 /\
+    Restore.run true true fuel T root ops2 s1' = Some s /\
+    (pool s = [] <-> forall p h, occ T root p h -> stored (store s) h = true) /\
+    (pool s = [] -> forall p h, In (p, h) (store s) <-> occ T root p h) /\
+    (forall x, In x (pool s) <-> rootkid T root (store s) x /\ stored (store s) (snd x) = false).
+Proof. exact crash_restart_converges. Qed.
+Print Assumptions C20_crash_restart_converges.
+
+(* The ledger's own records.  A node starts iff the jump-stage marker is present or the state-root record of its current block
+   exists.  EXPLICIT PREMISE: records that depend on each other reach the backend in ONE batch — every batch, as a whole,
+   takes a startable disk to a startable disk; then every prefix of the batches (every crash point) is startable. *)
+Theorem C20_crash_batches_keep_startable : forall (bs : list (list wr)) (d : disk),
+  startable d = true ->
+  (forall d' b, In b bs -> startable d' = true -> startable (apply_batch d' b) = true) ->
+  forall k, startable (apply_batches d (firstn k bs)) = true.
+Proof. exact batches_keep_startable. Qed.
+Print Assumptions C20_crash_batches_keep_startable.
+
+(* the jump as the code writes it (current block pointer under the marker; root record of the sync point together with the
+   marker removal): whichever batch was the last to reach the backend, the node starts *)
+Theorem C20_crash_jump_safe : forall p d k,
+  startable d = true -> startable (apply_batches d (firstn k (jump_good p))) = true.
+Proof. exact jump_crash_safe. Qed.
+Print Assumptions C20_crash_jump_safe.
+
+(* the root record written after the last flush of the jump: a crash before the next periodic flush leaves no marker,
+   current block 16 and no state root for it — the node cannot start ("can't init MPT at height 16") *)
+Theorem C20_crash_late_root_refuted :
+  let d0 := mkD 0 [0] false in
+  startable d0 = true /\
+  startable (apply_batches d0 (firstn 4 (jump_late_root 16))) = false /\
+  startable (apply_batches d0 (jump_late_root 16)) = true.
+Proof. exact jump_late_root_refuted. Qed.
+Print Assumptions C20_crash_late_root_refuted.
 
 (* ---------- part 2b: the blocks stage (added after the third independent mutation round) ---------- *)
 
